@@ -211,3 +211,23 @@ def recursion_cycles(cg, seen):
     # cycles made only of const/static initialisers (serde's FIELDS/VARIANTS tables mention themselves) are not recursion
     res = [c for c in res if any(cg.prog.fns[x].kind in ("fn", "assocfn", "closure") for x in c)]
     return res
+
+
+def skipping_path(body, blocks, header, starts, use, infeasible=()):
+    """is there a path inside the loop (block set `blocks`, header `header`) from one of `starts` back to the header that touches none of the `use`
+    blocks?  Error exits leave the loop and are not paths to the next iteration.  `infeasible` edges (b, successor) are not taken."""
+    seen, todo = set(), list(starts)
+    while todo:
+        b = todo.pop()
+        if b in seen or b in use:
+            continue
+        seen.add(b)
+        for s_ in body.succs(b):
+            if (b, s_) in infeasible:
+                continue
+            if s_ == header:
+                if b not in starts:
+                    return True
+            elif s_ in blocks:
+                todo.append(s_)
+    return False
